@@ -50,6 +50,11 @@ Section LL2CR.
     let oy := add OP (ymax a) (div OP ch (ofZ OP 2)) in
     mk_crp cw ch ox oy w h.
 
+  (* the argument tuple (cell_width, cell_height, width, height, origin_x, origin_y) of _ll2cr.ll2cr_static, as the
+     translator emits it from the source of ewa.ll2cr (Gen/GenC08.v) *)
+  Definition params_of_tuple (g : T * T * Z * Z * T * T) : cr_params :=
+    let '(cw, ch, w, h, ox, oy) := g in mk_crp cw ch ox oy w h.
+
   (* `x_tmp >= -1 and x_tmp <= width + 1 and y_tmp >= -1 and y_tmp <= height + 1` *)
   Definition in_grid_test (p : cr_params) (c r : T) : bool :=
     leb OP (ofZ OP (-1)) c && leb OP c (ofZ OP (cp_w p + 1)) &&
